@@ -198,4 +198,85 @@ theorem load_save_ksize (s : H) (hp : s.p < 64) (hq : s.q < 256) (hs : s.regs.si
   rw [if_neg (by omega), if_neg (by omega)]
   rw [← hl, List.take_length]
 
+/-! ### histories: every way content enters a sketch, on empty and non-empty receivers -/
+
+/-- one step of the history of a sketch of precision `p` and k-mer size `k` -/
+inductive Step where
+  /-- `add_hash` / `add_many` / `hll_add_hash` for each hash; `add_word` and `add_sequence` /
+      `hll_add_sequence` with the hashes of the word / of the valid k-mers -/
+  | add (hs : List Nat)
+  /-- `mh.update(&mut hll)` / `hll_update_mh` with a MinHash that holds `mins` -/
+  | update (mins : List Nat)
+  /-- `merge` / `hll_merge` with the sketch of `hs` -/
+  | merge (hs : List Nat)
+
+/-- the hashes a step brings -/
+def Step.content : Step → List Nat
+  | .add hs => hs
+  | .update mins => mins
+  | .merge hs => hs
+
+/-- what the code does for one step, on whatever the receiver holds -/
+def runStep (p k : Nat) (s : H) : Step → Except Err H
+  | .add hs => .ok (s.addMany hs)
+  | .update mins => .ok (s.update mins)
+  | .merge hs => s.merge (sketch p k hs)
+
+/-- steps in sequence; a refused merge ends the history with its error -/
+def runHistory (p k : Nat) : H → List Step → Except Err H
+  | s, [] => .ok s
+  | s, st :: rest =>
+    match runStep p k s st with
+    | .ok s' => runHistory p k s' rest
+    | .error e => .error e
+
+theorem update_eq_addMany (s : H) (mins : List Nat) : s.update mins = s.addMany mins := rfl
+
+theorem runStep_sketch (p k : Nat) (A : List Nat) (st : Step) :
+    runStep p k (sketch p k A) st = .ok (sketch p k (A ++ st.content)) := by
+  cases st with
+  | add hs => simp [runStep, Step.content, sketch, addMany_append]
+  | update mins => simp [runStep, Step.content, sketch, addMany_append, update_eq_addMany]
+  | merge hs => simp [runStep, Step.content, sketch_merge]
+
+theorem runHistory_sketch (p k : Nat) (A : List Nat) (steps : List Step) :
+    runHistory p k (sketch p k A) steps = .ok (sketch p k (A ++ steps.flatMap Step.content)) := by
+  induction steps generalizing A with
+  | nil => simp [runHistory]
+  | cons st rest ih => simp only [runHistory, runStep_sketch, ih, List.flatMap_cons, List.append_assoc]
+
+theorem foldl_max_init (f : Nat → Nat) (l : List Nat) (a : Nat) :
+    l.foldl (fun acc h => max acc (f h)) a = max a (l.foldl (fun acc h => max acc (f h)) 0) := by
+  induction l generalizing a with
+  | nil => simp
+  | cons h t ih => simp only [List.foldl_cons]; rw [ih, ih (max 0 (f h))]; omega
+
+theorem spec_reg_append (p : Nat) (A B : List Nat) (i : Nat) :
+    HllSpec.reg p (A ++ B) i = max (HllSpec.reg p A i) (HllSpec.reg p B i) := by
+  unfold HllSpec.reg
+  rw [List.filter_append, List.foldl_append, foldl_max_init]
+
+theorem spec_accum_size (p : Nat) (a : Array Nat) (hs : List Nat) : (HllSpec.accum p a hs).size = a.size := by
+  unfold HllSpec.accum
+  induction hs generalizing a with
+  | nil => rfl
+  | cons h t ih => simp only [List.foldl_cons]; rw [ih]; simp [Array.set!_eq_setIfInBounds]
+
+theorem spec_regs_size (p : Nat) (hs : List Nat) : (HllSpec.regs p hs).size = 2 ^ p := by
+  have := spec_accum_size p (Array.replicate (2 ^ p) 0) hs
+  simpa [HllSpec.accum, HllSpec.regs] using this
+
+theorem spec_accum_regs (p : Nat) (A B : List Nat) :
+    HllSpec.accum p (HllSpec.regs p A) B = HllSpec.regs p (A ++ B) := by
+  simp [HllSpec.accum, HllSpec.regs, List.foldl_append]
+
+theorem spec_merge_get (p : Nat) (A B : List Nat) (i : Nat) (hi : i < 2 ^ p) :
+    (HllSpec.mergeRegs (HllSpec.regs p A) (HllSpec.regs p B))[i]! = HllSpec.reg p (A ++ B) i := by
+  have sA := spec_regs_size p A
+  have sB := spec_regs_size p B
+  unfold HllSpec.mergeRegs
+  rw [getElem!_pos _ i (by simp [sA, sB]; exact hi), Array.getElem_zipWith, spec_reg_append,
+    ← spec_regs_get p A i hi, ← spec_regs_get p B i hi,
+    getElem!_pos _ i (by rw [sA]; exact hi), getElem!_pos _ i (by rw [sB]; exact hi)]
+
 end Hll
